@@ -128,6 +128,29 @@ def _other(obj, model, shift, order=None, drop=None, extra=None, container=None)
 
 
 # ----------------------------------------------------------------------------- transitions
+def _warm(o):
+    """read-only calls on the object itself before an in-place operation: whatever such a call may
+    leave behind on the object (a remembered grouping, a cached square form) must not survive the
+    in-place change - the operations that follow in the history are judged on the changed object"""
+    try:
+        for by in list(o.rdm_descriptors):
+            v = o.rdm_descriptors[by]
+            if len(v) and v[0] is not None:
+                o.subsample(by, [v[0]])
+                o.subset(by, v[0])
+        for by in list(o.pattern_descriptors)[:3]:
+            v = o.pattern_descriptors[by]
+            if len(v):
+                o.subsample_pattern(by, [v[0], v[-1]])
+                o.subset_pattern(by, [v[0], v[-1]])
+        o.get_matrices()
+        o.get_vectors()
+        if o.n_rdm:
+            o[0]
+    except Exception:
+        pass
+
+
 def enabled(obj, model):
     from rsatoolbox.rdm import rdms as R
     from rsatoolbox.rdm import combine as CMB
@@ -202,6 +225,7 @@ def enabled(obj, model):
                 arg = np.array(p) if form == 'ndarray' else list(p)
 
                 def f(o, arg=arg, p=p):
+                    _warm(o)
                     r = o.reorder(arg)
                     return [(o, same(), _expect(o, rids, [cids[i] for i in p]) +
                              ([] if r is None else [('returns-value', 'in-place operation returned %r' % type(r))]))]
@@ -210,18 +234,19 @@ def enabled(obj, model):
             desc = [_plain(v) for v in obj.pattern_descriptors[by]]
             order = sorted(range(nc), key=lambda i: desc[i])   # python sort is stable
             add(('sort_by', by, 'alpha'), lambda o, by=by, order=order:
-                [(o.sort_by(**{by: 'alpha'}), o, same(), _expect(o, rids, [cids[i] for i in order]))[1:4]])
+                [(_warm(o), o.sort_by(**{by: 'alpha'}), o, same(), _expect(o, rids, [cids[i] for i in order]))[2:5]])
             if len(set(map(str, desc))) == nc:
                 target = list(reversed(desc))
                 for form in ('list', 'ndarray'):
                     arg = np.array(target) if form == 'ndarray' else list(target)
                     add(('sort_by', by, 'explicit-' + form), lambda o, by=by, arg=arg:
-                        [(o.sort_by(**{by: arg}), o, same(), _expect(o, rids, list(reversed(cids))))[1:4]])
+                        [(_warm(o), o.sort_by(**{by: arg}), o, same(), _expect(o, rids, list(reversed(cids))))[2:5]])
     # --- append (in place) and concat ---------------------------------------------------------------
     if max(rids) < 5 and nr <= 3 and set(obj.rdm_descriptors) <= set(RD_ALL) | {'index'}:
         def f_append(o):
             other = _other(o, model, 5)
             fp = fingerprint([other.dissimilarities, other.rdm_descriptors, other.pattern_descriptors])
+            _warm(o)
             o.append(other)
             extra = _expect(o, rids + [5, 6], cids)
             if fingerprint([other.dissimilarities, other.rdm_descriptors, other.pattern_descriptors]) != fp:
